@@ -5,5 +5,13 @@ PROP = "C01"
 THEOREMS = ["C01_confinement_every_op", "C01_confinement_frame", "C01_only_messages_and_directs_carry_payloads", "C01_no_cross_channel_leak", "C01_targets_cache_is_filtered_members", "C01_disconnected_user_is_no_member"]
 
 
+import serverlib as sl
+
+
+def acl_gen(r, thorough):
+    return sl.acl_histories(r, thorough, types=("read", "publish"))
+
+
 def run(tier, replay=None):
-    return srvprops.run(PROP, THEOREMS, tier, replay)
+    return srvprops.run(PROP, THEOREMS, tier, replay, extra_gen=acl_gen,
+                        rule_note="plus directed ACL histories (multi-domain allow-lists edited by add/remove batches, then probed by broadcasts)")
